@@ -10,7 +10,7 @@ is hash order for Remove/Keep); (COMUT) the Add arm of mutate / mutate_pass_list
 shrink it; to_check pairs Add with the complement and Remove|Keep with the selection; (EXPR) polarity of the predicate per
 operation; create_from_indices builds vertices and the index remap from the same sorted unique list and keeps triangle order
 and winding; unique_vertices collects exactly the three indices of each selected face; (ENC) TriangleFilter fields private.
-vertex_check skips further tests only when BOTH planar_tol and angle_tol are None; face_select takes the starting selection as given. Round 5 (shared with C02): Mesh::project_with_max_dist is parry's capped projection on every path (no pre-filter). for_each closures writing the selection are read as the for loop they stand for."""
+vertex_check skips further tests only when BOTH planar_tol and angle_tol are None; face_select takes the starting selection as given. Round 5 (shared with C02): Mesh::project_with_max_dist is parry's capped projection on every path (no pre-filter). for_each closures writing the selection are read as the for loop they stand for. Round 6: near_check's normal test is Matrix::angle(face normal, reference normal) <= angle_tol (the clamped angle; no acos of a raw dot product)."""
 NOT_DECIDED = "the values of the geometric predicates (nalgebra angle, parry projections); only which quantity is compared with which is decided"
 ASSUMPTIONS = ["HashSet::insert grows, remove/retain shrink"]
 
